@@ -146,6 +146,7 @@ func vcyc(value, n int) int {
 // §2 step 2: the value is rendered by this style only if it lies in one of its ranges
 //@   loop 2 invariant found ==> exists(k, 0, len(counterRanges), counterRanges[k][0] <= counterValue && counterValue <= counterRanges[k][1])
 //@   loop 2 invariant !found ==> forall(k, 0, rangeindex + 1, !(counterRanges[k][0] <= counterValue && counterValue <= counterRanges[k][1]))
+//@   loop 2 exit[found-iff-in-some-range] found <==> exists(k, 0, len(counterRanges), counterRanges[k][0] <= counterValue && counterValue <= counterRanges[k][1])
 // §2 step 2, range `auto`: 1..inf for alphabetic and symbolic, 0..inf for additive, unbounded otherwise
 //@   assert after counterRanges#2: len(counterRanges) == 1 && counterRanges[0][1] == 2147483647 && counterRanges[0][0] == ite(system == "alphabetic" || system == "symbolic", 1, ite(system == "additive", 0, -2147483648))
 // §2 step 3 / §3.1: the systems that "use a negative sign" are symbolic, alphabetic, numeric and additive;
